@@ -92,6 +92,10 @@ var c11Templates = []struct {
 	// shared global of the same name for that future's body too; the body waits on the fake clock, so the
 	// definition is in place whatever the schedule
 	{"late-local-helper", `((fn [] (do (def fut (future (do (sleep 1) (tmp-helper 2)))) (def tmp-helper (fn [x] (* x N))) @fut)))`},
+	// a parameter named like another program's global macro, in call position
+	{"param-named-like-others-macro", `((fn [O-unless x] (O-unless x N)) (fn [a b] (+ a b)) 1)`},
+	{"let-fn-named-like-others-macro", `(let [O-twice (fn [x] (* x N))] (list (O-twice 2) (O-twice 3)))`},
+	{"own-macro-repeated", `(do (defmacro T-unless (fn [c a b] (list 'if c b a))) (list (T-unless false N 0) (do (spin 3) (T-unless true 0 N)) (T-unless false (+ N 1) 0)))`},
 	{"late-local-helper2", `((fn [] (do (def fut (future (do (sleep 2) (list (tmp-helper 1) (tmp-helper 3))))) (spin 2) (def tmp-helper (fn [x] (+ x N))) @fut)))`},
 }
 
@@ -187,7 +191,8 @@ func (c11) Run(tp *Tape, opt RunOpt) *RunOut {
 		for k := 0; k < nf; k++ {
 			tpl := c11Templates[tp.Draw(LaneWork, len(c11Templates))]
 			N := strconv.Itoa(10*(i+1) + k)
-			src := strings.ReplaceAll(strings.ReplaceAll(tpl.src, "T", T), "N", N)
+			O := "t" + strconv.Itoa((i+1)%nProg)
+			src := strings.ReplaceAll(strings.ReplaceAll(strings.ReplaceAll(tpl.src, "O-", O+"-"), "T", T), "N", N)
 			p.Frags = append(p.Frags, tpl.name)
 			parts = append(parts, src)
 		}
